@@ -228,4 +228,59 @@ theorem undoTs_append (sd : Bool) (x : AState) (es fs : List Entry) :
   | nil => rfl
   | cons e es ih => simp [undoTs, ih]
 
+
+theorem undoT_warm (sd : Bool) (x : AState) (e : Entry) (b : Addr) :
+    (undoT sd x e).warm b = (x.warm b && !(e == Entry.accountWarmed b)) := by
+  cases e <;> simp [undoT]
+  case accountWarmed a =>
+    by_cases h : b = a
+    · subst h; simp
+    · have : ¬ a = b := fun e => h e.symm
+      simp [upd_ne' h, this]
+
+theorem undoTs_warm (sd : Bool) (es : List Entry) (x : AState) (b : Addr) :
+    (undoTs sd x es).warm b = (x.warm b && !(es.contains (Entry.accountWarmed b))) := by
+  induction es generalizing x with
+  | nil => simp [undoTs]
+  | cons e es ih =>
+    simp only [undoTs, ih, undoT_warm, List.contains_cons]
+    by_cases he : e = Entry.accountWarmed b
+    · subst he; simp
+    · have h1 : (e == Entry.accountWarmed b) = false := by simp [he]
+      have h2 : (Entry.accountWarmed b == e) = false := by simp; exact fun h => he h.symm
+      simp [h1, h2]
+
+theorem undoT_slotwarm (sd : Bool) (x : AState) (e : Entry) (b : Addr) (k : Nat) :
+    ((undoT sd x e).slot b k).warm = ((x.slot b k).warm && !(e == Entry.storageWarmed b k)) := by
+  cases e <;> simp [undoT]
+  case storageWarmed a j =>
+    by_cases h : b = a
+    · subst h
+      by_cases hk : k = j
+      · subst hk; simp
+      · have : ¬ j = k := fun e => hk e.symm
+        simp [updK, hk, this]
+    · have : ¬ a = b := fun e => h e.symm
+      simp [upd_ne' h, this]
+  case storageChanged a j had =>
+    by_cases h : b = a
+    · subst h
+      by_cases hk : k = j
+      · subst hk; simp
+      · simp [updK, hk]
+    · simp [upd_ne' h]
+
+theorem undoTs_slotwarm (sd : Bool) (es : List Entry) (x : AState) (b : Addr) (k : Nat) :
+    ((undoTs sd x es).slot b k).warm = ((x.slot b k).warm && !(es.contains (Entry.storageWarmed b k))) := by
+  induction es generalizing x with
+  | nil => simp [undoTs]
+  | cons e es ih =>
+    simp only [undoTs, ih, undoT_slotwarm, List.contains_cons]
+    by_cases he : e = Entry.storageWarmed b k
+    · subst he; simp
+    · have h1 : (e == Entry.storageWarmed b k) = false := by simp [he]
+      have h2 : (Entry.storageWarmed b k == e) = false := by simp; exact fun h => he h.symm
+      simp [h1, h2]
+
+
 end Revm.Proofs.Journal
